@@ -71,11 +71,10 @@ theorem HeldReach.mono {t t' : MTbl} {ext : Nat → Nat} (hs : MExt t' t) {x : N
   | step p n k nk _ hn hk hnk ih => exact HeldReach.step p n k nk ih (hs.nodes _ _ hn) hk (hs.nodes _ _ hnk)
 
 /-- full collection: a node of the manager remains iff it is reachable from a held node -/
-theorem gc_exactly_reachable (m : MddMgr) (ext : Nat → Nat) (h : MInv m) (hx : MRefExact m ext)
-    (m' : MddMgr) (hr : mCollectGarbage none m = (.ok (), m')) (x : Nat) (n : MNd)
+theorem gcOK_exactly_reachable (m : MddMgr) (ext : Nat → Nat) (h : MInv m)
+    (m' : MddMgr) (G : GcOK m ext true m') (x : Nat) (n : MNd)
     (hn : m.tbl.node? x = some n) :
     m'.tbl.node? x = some n ↔ HeldReach m.tbl ext x := by
-  have G := mddGc_spec m ext h hx none m' hr
   constructor
   · intro hn'
     have := all_reachable_of_live m' ext G.inv G.exact (G.live rfl) n.lvl x n hn' (Nat.le_refl _)
@@ -103,5 +102,11 @@ theorem gc_exactly_reachable (m : MddMgr) (ext : Nat → Nat) (h : MInv m) (hx :
           cases this
           exact hn2
     exact key x hreach n hn
+
+theorem gc_exactly_reachable (m : MddMgr) (ext : Nat → Nat) (h : MInv m) (hx : MRefExact m ext)
+    (m' : MddMgr) (hr : mCollectGarbage none m = (.ok (), m')) (x : Nat) (n : MNd)
+    (hn : m.tbl.node? x = some n) :
+    m'.tbl.node? x = some n ↔ HeldReach m.tbl ext x :=
+  gcOK_exactly_reachable m ext h m' (mddGc_spec m ext h hx none m' hr) x n hn
 
 end DD
